@@ -6,7 +6,7 @@ META = {
     "level": "proof",
     "technique": "Coq proofs by structural induction over a program language (stack machine vs lexical denotation of the QueuingManager/AnnotatedQueue) + vm_compute correspondence against the real pennylane queuing",
     "design_ref": "DESIGN.md §3 C41",
-    "text": "Kernel-checked theorems (Props/C41.v) for ALL structured programs (new / wrapper constructors / qp.apply / with AnnotatedQueue / stop_recording / try / raise): the queues produced by the stack machine transcribing core/queuing.py equal the lexical denotation (events go to the innermost enclosing With, none under Stop); nothing is recorded in existing contexts under stop_recording; an inner With never touches outer queues; the context stack is restored after every program, exceptions included; every queue is in creation order; operands consumed by a wrapper are absent and the wrapper is last. The model is evaluated inside Coq on the same generated programs that are run on the real AnnotatedQueue / QueuingManager.stop_recording / qp.adjoint / qp.ctrl / qp.pow / @ / scalar * / qp.expval / qp.apply, and every final queue (by object identity), the object count, the raised flag and the restored stack are compared.",
+    "text": "Kernel-checked theorems (Props/C41.v) for ALL structured programs (new / wrapper constructors / qp.apply / with AnnotatedQueue / stop_recording / try / raise): the queues produced by the stack machine transcribing core/queuing.py equal the lexical denotation (events go to the innermost enclosing With, none under Stop); nothing is recorded in existing contexts under stop_recording; an inner With never touches outer queues; the context stack is restored after every program, exceptions included; every queue is in creation order; operands consumed by a wrapper are absent and the wrapper is last. The model is evaluated inside Coq on the same generated programs that are run on the real AnnotatedQueue / QueuingManager.stop_recording / qp.adjoint / qp.ctrl / qp.pow / @ / scalar * / qp.expval / qp.apply, and every final queue (by object identity), the object count, the raised flag and the restored stack are compared. Outside the model, 27 eager constructors (qp.pow/adjoint lazy=False incl. op**z = I, simplify, exp/evolve, ctrl with custom dispatch, +, -, unary -, **, var, sample) are run flat and inside a nested context and the queues must be exactly [pre, result, post] with the operand absent and the outer queue untouched (a direct test of the property's reading, not a theorem).",
     "note": "Trusted: Coq kernel; the hand transcription of queuing.py and of the queue() methods / wrapper constructors (which operands are removed, in which order; copy semantics of qp.apply for new-style vs old-style operators; ctrl/prod/s_prod flattening; custom ctrl dispatch of RX giving a fresh base) is tied to /repo only by the correspondence run. Single thread only: the RLock in AnnotatedQueue.__enter__/__exit__ and multi-threaded recording are not modelled. Program capture (capture.enabled()) is off. The tidy 'created there, in program order, minus consumed there' reading (record_of) is checked by vm_compute on every generated case and by the python direct oracle, but is not proved for all programs (the general theorems are: machine = lexical event denotation, frame/isolation, stack restoration, creation-order invariant, per-constructor membership). Only the wrapper entry points listed above with lazy defaults (adjoint, pow lazy; @ and scalar* eager) are exercised; queue metadata (kwargs) is not modelled. The stack is modelled with its top at the head of a list.",
     "assumptions": ["single-threaded recording (RLock not modelled)",
                     "program capture disabled",
@@ -377,7 +377,22 @@ def run(ctx):
         c, o = cases[i], obs[i]
         ctx.violation("corr:" + json.dumps(c), {"case": c, "implementation": o, "model": machine(c)[0]},
                       found_input=True, what="implementation differs from the proved stack-machine model of queuing")
-    ctx.coverage.update({"evaluations": len(cases), "distinct_nontrivial": len(distinct),
+    # eager constructors (not among the proved wrapper kinds; a direct check of the property's reading)
+    eg = ctx.run_impl("c41_impl.py", {"eager": True})
+    for name in eg["names"]:
+        flat, nest = eg["obs"][name]
+        for tag, o, exp_in, exp_out in (("flat", flat, ["o0", "pre", "res", "post"], ["o0", "pre", "res", "post"]),
+                                        ("nested", nest, ["pre", "res", "post"], ["o0"])):
+            if "crash" in o:
+                ctx.violation(f"eager-crash:{name}:{tag}", {"constructor": name, "observed": o},
+                              what="eager constructor raised inside a recording context")
+            elif o["inner"] != exp_in or o["outer"] != exp_out or not o["stack_ok"]:
+                ctx.violation(f"eager:{name}:{tag}", {"constructor": name, "observed": o,
+                                                      "expected_inner": exp_in, "expected_outer": exp_out},
+                              what="an eager constructor (lazy=False / simplify / arithmetic dunder) left its consumed operand in the queue, "
+                                   "dropped its result, or touched the outer context")
+    hist["eager_constructors"] = 2 * len(eg["names"])
+    ctx.coverage.update({"evaluations": len(cases) + 2 * len(eg["names"]), "distinct_nontrivial": len(distinct),
                          "rule": "hand corpus (cross-context consumption, flattening, exceptions through with/stop) + seeded random structured programs (depth<=4, <=7 statements per block, references mostly to recent objects); non-trivial = at least two contexts with a non-empty final queue",
                          "input_distribution": hist})
     for c, o in list(zip(cases, obs))[:3]:
